@@ -35,7 +35,7 @@ def tol_eff(t):
 
 def mlist(m): return [] if m is None else [float(a) for a in m]
 
-def variants_conelp(cvxopt, PR, pr, rng, max_variants):
+def variants_conelp(cvxopt, PR, pr, rng, max_variants, focus=None):
     """list of (tag, callable returning result dict, tolerances dict, G-with-junk or None, h-with-junk or None)"""
     from cvxopt import solvers, matrix
     out = []
@@ -63,9 +63,11 @@ def variants_conelp(cvxopt, PR, pr, rng, max_variants):
         return f
     cand.append(('conelp callable-kktsolver', dict(kktsolver=custom_kkt), False, False))
     rng.shuffle(cand)
+    if focus == 's-blocks': cand = [x for x in cand if 'junk' in x[0]] + [x for x in cand if 'junk' not in x[0]]
     for tag, kw, sparse, junk in cand[:max_variants]:
         o = opts(rng)
-        c2, G2, h2, A2, b2, _ = PR.to_cvx(cvxopt, pr, sparse=sparse, junk=(random.Random(rng.random()) if junk else None))
+        c2, G2, h2, A2, b2, _ = PR.to_cvx(cvxopt, pr, sparse=sparse, junk=(random.Random(rng.random()) if junk else None),
+                                          junk_scale=(rng.choice([1.0, 1e3, 1e5]) if focus == 's-blocks' else 1.0))
         Gl = [[float(G2[i, j]) for i in range(pr.N)] for j in range(pr.n)] if junk else None
         hl = [float(a) for a in h2] if junk else None
         out.append((tag, (lambda c2=c2, G2=G2, h2=h2, A2=A2, b2=b2, kw=kw, o=o: quiet(solvers.conelp, c2, G2, h2, dims, A2, b2, options=o, **kw)),
@@ -146,7 +148,7 @@ def fields_optimal(r, o, native=True):
     return bad
 
 
-def cone_runs(ctx, cvxopt, kinds, n_inst, max_variants, prop, judge_exceptions=False, rankdef=0):
+def cone_runs(ctx, cvxopt, kinds, n_inst, max_variants, prop, judge_exceptions=False, rankdef=0, focus=None):
     """solve planted cone LPs in many presentations; every returned status is judged by the Lean checker.
     Violations are recorded on ctx with signatures prefixed by the property tag."""
     from corr import problems as PR
@@ -159,8 +161,15 @@ def cone_runs(ctx, cvxopt, kinds, n_inst, max_variants, prop, judge_exceptions=F
     for i in range(n_inst):
         kind = rng.choice(kinds)
         if i < rankdef: kind = 'rankdef'; pr = PR.rankdef_conelp(rng, i == 0)
+        elif focus == 's-blocks':
+            # targeted search: several 's' blocks of order >= 2 (and a 'q' block), small objective so that the gap converges first
+            dims = {'l': rng.randint(0, 2), 'q': [rng.randint(2, 3)] if rng.random() < 0.5 else [], 's': [rng.randint(2, 3) for _ in range(rng.randint(1, 2))]}
+            pr = PR.planted_conelp(rng, kind, dims=dims)
+            if kind == 'optimal' and rng.random() < 0.7:
+                t = rng.choice([1e-4, 1e-3])
+                pr.c = [a * t for a in pr.c]; pr.wit['z'] = [a * t for a in pr.wit['z']]; pr.wit['y'] = [a * t for a in pr.wit['y']]
         else: pr = PR.planted_conelp(rng, kind)
-        for tag, fn, tol, Gj, hj in variants_conelp(cvxopt, PR, pr, rng, max_variants):
+        for tag, fn, tol, Gj, hj in variants_conelp(cvxopt, PR, pr, rng, max_variants, focus):
             desc = {'seed': ctx.seed, 'index': i, 'kind': kind, 'presentation': tag, 'dims': pr.dims, 'c': pr.c, 'G': Gj or pr.G, 'h': hj or pr.h,
                     'A': pr.A, 'b': pr.b, 'tolerances': tol}
             stats['solves'] += 1
